@@ -107,6 +107,83 @@ def c14_seeds(item):
     return {'name': item['name'], 'src': item['src'], 'bad': bad, 'n': len(outs)}
 
 
+def quiet(fn, *a):
+    import contextlib, io
+    buf = io.StringIO()
+    with contextlib.redirect_stdout(buf), contextlib.redirect_stderr(buf):
+        return fn(*a)
+
+
+OPT_SNIPPETS = [["int 0", "gtxns Sender", "pop"], ["txn GroupIndex", "gtxns Fee", "pop"], ["txna Accounts 0", "pop"], ["int 1", "gtxns Receiver", "pop"],
+                ["pushint 2", "gtxns Amount", "pop"], ["txn GroupIndex", "gtxnsa ApplicationArgs 0", "pop"]]
+
+
+def c14_multi_one(item):
+    """several contracts in ONE Tealer object (group-configuration mode): what every detector - the path-reporting ones and the
+    optimisation detectors - reports for a contract must not depend on which other contracts are loaded with it, nor on their order"""
+    import logging, tempfile, shutil
+    logging.disable(logging.CRITICAL)
+    from tealer.utils.command_line.common import init_tealer_from_config
+    from tealer.utils.command_line.group_config import (GroupConfig, GroupConfigContract, GroupConfigFunction, GroupConfigFunctionCall,
+                                                        GroupConfigGroup, GroupConfigTransaction)
+    from tealer.detectors import all_detectors
+    from tealer.detectors.abstract_detector import AbstractDetector
+    import inspect as _inspect
+    dets = sorted([d for d in vars(all_detectors).values() if _inspect.isclass(d) and issubclass(d, AbstractDetector) and d is not AbstractDetector], key=lambda d: d.NAME)
+    res = {'name': item['name'], 'src': "\n---\n".join(item['srcs'].values()), 'runs': 0, 'viol': []}
+    wd = tempfile.mkdtemp(prefix='c14multi_')
+    try:
+        def analyse(names):
+            contracts, groups = [], []
+            for nm in names:
+                path = os.path.join(wd, f"{nm}.teal")
+                open(path, 'w').write(item['srcs'][nm])
+                contracts.append(GroupConfigContract(name=nm, file_path=path, contract_type="LogicSig", version=6, subroutines=[],
+                                                     functions=[GroupConfigFunction(name="main", dispatch_path=["B0"])]))
+                groups.append(GroupConfigGroup(operation=f"op_{nm}", transactions=[GroupConfigTransaction(txn_id=f"T_{nm}", txn_type="pay",
+                                               logic_sig=GroupConfigFunctionCall(contract=nm, function="main"))]))
+            tealer = init_tealer_from_config(GroupConfig(name="c14", contracts=contracts, groups=groups))
+            for d in dets: tealer.register_detector(d)
+            out = {nm: {} for nm in names}
+            for douts in tealer.run_detectors():
+                for o in (douts if isinstance(douts, list) else [douts]):
+                    teal = getattr(o, '_teal', None)
+                    if teal is None or teal.contract_name not in out: continue
+                    out[teal.contract_name].setdefault(o.detector.NAME, []).append(json.dumps(o.to_json(), sort_keys=True))
+            return out
+        names = sorted(item['srcs'])
+        arrangements = [tuple(names), tuple(reversed(names))] + [(n,) for n in names]
+        seen = {}
+        for arr in arrangements:
+            try:
+                r = quiet(analyse, arr)
+            except BaseException as e:  # noqa
+                res['viol'].append(('multi-contract', f"analysing the contracts {arr} together raises {type(e).__name__}: {e}")); continue
+            res['runs'] += 1
+            for nm in arr:
+                for d in dets:
+                    got = sorted(r[nm].get(d.NAME, []))
+                    if (nm, d.NAME) in seen and seen[(nm, d.NAME)][1] != got:
+                        res['viol'].append(('multi-contract', f"detector {d.NAME} on contract {nm}: loaded as {seen[(nm, d.NAME)][0]} it reports {seen[(nm, d.NAME)][1]}, loaded as {arr} it reports {got}"))
+                    seen.setdefault((nm, d.NAME), (arr, got))
+    finally:
+        shutil.rmtree(wd, ignore_errors=True)
+    return res
+
+
+def c14_multi_items(cx, n):
+    items = []
+    for k in range(n):
+        r = random.Random(f"c14multi/{cx.seed}/{k}")
+        common = ["#pragma version 6"] + [l for _ in range(r.randrange(1, 4)) for l in r.choice(OPT_SNIPPETS)]
+        srcs = {}
+        for nm in ("A", "B", "C")[:r.randrange(2, 4)]:
+            tail = [l for _ in range(r.randrange(0, 3)) for l in r.choice(OPT_SNIPPETS + [["txn RekeyTo", "global ZeroAddress", "==", "assert"], ["txn Fee", "int 1000", "<=", "assert"]])]
+            srcs[nm] = "\n".join(common + tail + ["int 1", "return"]) + "\n"
+        items.append({'name': f'c14multi/{cx.seed}/{k}', 'srcs': srcs})
+    return items
+
+
 def c14(cx):
     rng = random.Random(f"c14/{cx.seed}")
     n = 24 if cx.quick() else 300
@@ -147,6 +224,11 @@ def c14(cx):
         if r['bad']:
             cx.violations.append({'kind': 'hash-seed', 'program': r['name'], 'prop': 'C14', 'field': 'hash-seed', 'where': str(r['bad']),
                                   'detail': f"`tealer --json - detect` output under PYTHONHASHSEED in {r['bad']} differs byte-wise from PYTHONHASHSEED=0", 'src': r['src'], 'env': None})
+    mres = engine.run_items_with(c14_multi_one, c14_multi_items(cx, 12 if cx.quick() else 150))
+    for r in mres:
+        runs += r['runs']; cx.distinct.add(r['name'])
+        for kind, detail in r['viol'][:3]:
+            cx.violations.append({'kind': kind, 'program': r['name'], 'prop': 'C14', 'field': kind, 'where': kind, 'detail': detail[:1500], 'src': r['src'], 'env': None})
     cx.evaluations += runs
     cx.samples += [{'program': res[0]['name'], 'source': res[0]['src'][:400], 'histories': 2, 'detector orders': 3, 'hash seeds': nseeds}]
     return {'programs': len(items), 'disagreements_checked': 0, 'runs': runs, 'hash_seeds': nseeds,
